@@ -513,3 +513,59 @@ Qed.
 
 Lemma fresh_init : fresh (m_b m_init).
 Proof. unfold fresh; cbn; repeat split; lia. Qed.
+
+(* ---------- the same steps for callers that hold tokens themselves (HTML / Markdown parsers) ---------- *)
+Lemma rel_write_valid stale b toks s x :
+  Rel stale b toks s -> Forall cp_valid x -> Rel stale (b_write b (utf8_encode x)) toks (s_app s x).
+Proof.
+  intros R Hx. eapply rel_grow; [exact R|exact Hx|..]; cbn [b_write b_msg b_u16 b_ents b_lens b_lfi]; try reflexivity.
+  rewrite compute_length_encode by exact Hx; reflexivity.
+Qed.
+
+Lemma rel_token stale b toks s : Rel stale b toks s -> b_token b = tok_of (s_text s).
+Proof. intros R; destruct R. unfold b_token, tok_of. rewrite r_msg0, r_u17. reflexivity. Qed.
+
+Lemma rel_apply_tok stale b toks s pre tags :
+  Rel stale b toks s -> is_prefix pre (s_text s) ->
+  Rel stale (b_apply b (tok_of pre) tags) toks
+      (s_add s (map (fun t => (t, pre, skipn (length pre) (s_text s))) tags)).
+Proof.
+  intros R [rest Hrest].
+  assert (skipn (length pre) (s_text s) = rest) as -> by (rewrite Hrest; apply skipn_app_len).
+  assert (b_apply b (tok_of pre) tags =
+          b_append_entities b (u16c pre) (u16c rest)
+                            {| u_off := len (utf8_encode pre); u_len := len (b_msg b) - len (utf8_encode pre) |} tags) as ->.
+  { unfold b_apply, tok_of; cbn [t_u8 t_u16]. destruct R. rewrite r_u17, Hrest, u16c_app. f_equal; lia. }
+  apply rel_append; [exact R| |reflexivity]. exists []; rewrite app_nil_r; exact Hrest.
+Qed.
+
+Lemma rel_shrink stale b toks s :
+  Rel stale b toks s ->
+  Rel stale (b_shrink b) toks {| s_text := s_text s; s_toks := s_toks s; s_pieces := s_pieces s; s_shrunk := true |}.
+Proof.
+  intros R. destruct R.
+  constructor; cbn [b_shrink b_msg b_u16 b_ents b_lens b_lfi s_text s_toks s_pieces s_shrunk]; try assumption.
+  - discriminate.
+  - apply Forall_forall. intros e He. destruct (shrink_sim _ _ He) as [e0 [Hin Hs]].
+    rewrite Forall_forall in r_sim0. destruct (r_sim0 _ Hin) as [p [Hp Hs']].
+    exists p; split; [exact Hp|eapply srk_trans; eassumption].
+  - intros H. apply r_lfi0. pose proof (shrink_length (b_ents b)). unfold len in *. lia.
+Qed.
+
+Lemma Forall_firstn {A} (P : A -> Prop) n l : Forall P l -> Forall P (firstn n l).
+Proof.
+  revert l; induction n as [|n IH]; intros [|x l] H; cbn [firstn]; try constructor.
+  - inversion H; assumption.
+  - inversion H; apply IH; assumption.
+Qed.
+
+(* a completed build: no panic, and every entity lies within the returned text (as Go measures it) *)
+Theorem complete_within stale b toks s :
+  Rel stale b toks s ->
+  exists text es, snd (b_complete b) = Ok (text, es) /\
+    Forall (fun e => 0 <= e_off e /\ 0 <= e_len e /\ e_off e + e_len e <= compute_length text) es.
+Proof.
+  intros R. destruct (complete_rel _ _ _ _ R) as [nT [es [E [_ [_ [_ [_ Hw]]]]]]].
+  exists (utf8_encode (firstn nT (s_text s))), es. rewrite E; cbn [snd]. split; [reflexivity|].
+  rewrite compute_length_encode; [exact Hw|]. apply Forall_firstn. destruct R; assumption.
+Qed.
